@@ -212,7 +212,7 @@ def c08(chk):
     count_cases(chk, summ, lambda r: (r["kind"], r["bound_ms"], r["took_ms"] // 100) if r["ev"] == "obs.shutdown_result" else None)
     sample_events(chk, summ, ("obs.shutdown_result", "obs.api_after"), n=3)
     # real threads: runtime teardown at every point
-    td = harness("teardown", trials=33 if quick(chk) else 440, seed=chk.seed)
+    td = harness("teardown", trials=36 if quick(chk) else 480, seed=chk.seed)
     chk.parts.setdefault("teardown", []).append({"trials": len(td["trials"])})
     for t in td["trials"]:
         chk.case(("teardown", t["mode"], t["seed"]))
@@ -221,7 +221,7 @@ def c08(chk):
                           "tearing the runtime down hung (mode %s, seed %d)" % (t["mode"], t["seed"]), t)
         for lk in t.get("leaks", []):
             kind = "address-not-free" if lk.startswith("address not free") else "service-clone-alive" if "clone" in lk else \
-                "not-closed" if "not closed" in lk else "call-pending" if "pending" in lk else "other"
+                "subscription-open" if "subscription" in lk else "not-closed" if "not closed" in lk else "call-pending" if "pending" in lk else "other"
             chk.violation("teardown:leak:%s:%s" % (t["mode"], kind), "%s (mode %s, seed %d)" % (lk, t["mode"], t["seed"]), t)
         for p in t["panics"]:
             chk.violation("teardown:panic:%s:%s" % (t["mode"], p.split("\n")[-1][:60]),
